@@ -7,6 +7,8 @@ import (
 	"context"
 	"net/http"
 
+	"github.com/pkg/errors"
+
 	"github.com/ory/keto/ketoapi"
 
 	"github.com/julienschmidt/httprouter"
@@ -115,7 +117,9 @@ func (h *handler) getExpand(w http.ResponseWriter, r *http.Request, _ httprouter
 func (h *handler) Expand(ctx context.Context, req *rts.ExpandRequest) (*rts.ExpandResponse, error) {
 	var subSet *ketoapi.SubjectSet
 
-	switch sub := req.Subject.Ref.(type) {
+	switch sub := req.GetSubject().GetRef().(type) {
+	case nil:
+		return nil, errors.WithStack(ketoapi.ErrNilSubject)
 	case *rts.Subject_Id:
 		return &rts.ExpandResponse{
 			Tree: &rts.SubjectTree{
